@@ -38,6 +38,10 @@ class LineIndex:
 
     def __init__(self, text, base=1):
         self.base = base
+        if text.startswith("\ufeff"):
+            # a byte order mark is not part of the text positions are counted in (swc strips it before parsing, Node
+            # before compiling, editors do not give it a column)
+            text = text[1:]
         self.b = text.encode("utf-8")
         self.starts = [0]
         i = 0
